@@ -599,7 +599,8 @@ def gen_container_case(rng, path):
     shapes = {}
     for n in names:
         if style == "vec":
-            shapes[n] = (rng.choice([1, 1, 2, 3, 5]),)
+            # also vectors with more than ten components (component columns name_10, name_11 … sort before name_2 as text)
+            shapes[n] = (rng.choice([1, 1, 2, 3, 5, 11, 13]),)
         elif style == "scalar":
             shapes[n] = ()
         else:
